@@ -56,6 +56,8 @@ def cases(rng, tier):
         out.append({"kind": "unary", "a": a, "f": rng.choice(UNARY), "dta": rng.choice(gens.DTYPES)})
         for red in rng.sample(RED, 3):
             out.append({"kind": "reduce", "a": a, "f": red, "dta": rng.choice(gens.DTYPES)})
+        # reductions over NEIGHBOURING extreme values (2**63-2, 2**63-1, ...): sums that leave the 64-bit range, means of huge values
+        out.append({"kind": "reduce", "a": a, "f": rng.choice(["sum", "mean", "max", "np.sum", "np.mean"]), "dta": rng.choice(["int64", "uint64", "int32", "uint8", "float64"]), "vm": "near"})
         out.append({"kind": "sum", "a": a, "dta": "int64"})
         # a reduction of a DERIVED array: a scalar comparison / concatenation keeps the operand's run boundaries, so neighbouring
         # runs of the result may hold equal values
@@ -117,8 +119,8 @@ def distribution(ps):
     return d
 
 
-def _vals(classes, dt):
-    return rlgen.to_values(classes, dt, small=True)
+def _vals(classes, dt, mode=True):
+    return rlgen.to_values(classes, dt, small=mode)
 
 
 def _rl(r, joined):
@@ -139,7 +141,7 @@ def run_impl(p):
             if k == "concat":
                 rs = [RunLengthArray.from_array(_vals(a, p["dta"])) for a in p["parts"]]
                 return _rl(np.concatenate(rs), False)
-            x = RunLengthArray.from_array(_vals(p["a"], p["dta"]))
+            x = RunLengthArray.from_array(_vals(p["a"], p["dta"], p.get("vm", True)))
             xe, xv = x._events.copy(), np.asarray(x._values).copy()
             if k == "sum":
                 return int(x.sum())
@@ -176,7 +178,7 @@ def oracle(p):
         with np.errstate(all="ignore"):
             if k == "concat":
                 return {"k": "obs", "decoded": canon(np.concatenate([_vals(a, p["dta"]) for a in p["parts"]])), "canonical": canon(True)}
-            a = _vals(p["a"], p["dta"])
+            a = _vals(p["a"], p["dta"], p.get("vm", True))
             if k == "sum":
                 return canon(int(a.sum()))
             if k == "reduce" and "derive" in p:
